@@ -127,7 +127,23 @@ def operator_terms():
     def l_add(u, du, v, w, xp, H):
         return ((u + c_of(w)) + (u + 1.5)) * du * (v / 2.)
 
-    return [('op:num/field', rdiv_num, l_rdiv_num), ('op:array/field', rdiv_arr, l_rdiv_arr), ('op:c-field', rsub, l_rsub),
+    from skfem.autodiff import JaxDiscreteField as _J
+    extra = []
+    if hasattr(_J, '__rpow__'):
+        def rpow(u, v, w, xp, H):
+            return (1.5 ** u) * v + (c_of(w) ** u) * v
+
+        def l_rpow(u, du, v, w, xp, H):
+            return (np.log(1.5) * 1.5 ** u + np.log(c_of(w)) * c_of(w) ** u) * du * v
+        extra.append(('op:c**field', rpow, l_rpow))
+    if hasattr(_J, '__neg__') and hasattr(_J, '__radd__'):
+        def negadd(u, v, w, xp, H):
+            return (-u) * (1.5 + u) * (c_of(w) + u) * v
+
+        def l_negadd(u, du, v, w, xp, H):
+            return (-(1.5 + u) * (c_of(w) + u) - u * (c_of(w) + u) - u * (1.5 + u)) * du * v
+        extra.append(('op:-field,c+field', negadd, l_negadd))
+    return extra + [('op:num/field', rdiv_num, l_rdiv_num), ('op:array/field', rdiv_arr, l_rdiv_arr), ('op:c-field', rsub, l_rsub),
             ('op:c*field', rmul, l_rmul), ('op:field/c', div, l_div), ('op:field(op)field', fieldfield, l_fieldfield),
             ('op:field**k', power, l_power), ('op:field+c', add, l_add)]
 
